@@ -20,7 +20,8 @@ OnRec(e) ==
            [s EXCEPT !.viol = Add(Add(s.viol, e.same_success, "VariantsAgreeOnSuccess"), e.same_solution, "VariantsAgreeOnSolution")]
       [] e.e = "jac" ->
            [s EXCEPT !.viol = Add(Add(Add(s.viol, e.fd_ok, "AssembledJacobianMatchesFiniteDifferences"), e.pattern_stable, "SparsityPatternStable"),
-                                  e.modes_agree, "AccumulationModesGiveSameJacobian")]
+                                  e.modes_agree, "AccumulationModesGiveSameJacobian") \cup
+                                  (IF e.mass_current THEN {} ELSE {"MassMatrixCarriesCurrentTimeConstants"})]
       [] OTHER -> s
 Consume ==
     /\ l <= Len(Ev(tid))
